@@ -47,6 +47,11 @@ def run(ctx):
 
 
 def run_cfg(ctx, p, cfg):
+    if "rolling_file_appender" in p.meta.get("features", []):
+        # sink-side premise of "one record, one line": the file the lines go to is reopened in append mode unless it was just
+        # truncated, so a line is never written over lines that are kept (C05.R5 re-evaluated)
+        from rules import rolling
+        rolling.rule_reopen(ctx, p, cfg, "J6")
     with ctx.rule("J1", "compact formatter", cfg) as r:
         f = inner_fn(p)
         ctors = [c for c in f.calls() if (c.callee or "").startswith("serde_json::ser::Serializer")]
